@@ -57,7 +57,7 @@ CLAIMS = {
     technique="symbolic-scalar concolic execution + SMT (z3, per-query timeouts on nonlinear obligations); native f64 replay",
     design_ref="DESIGN.md §4 C09"),
  "C15": dict(
-    text="Gaussian and multinomial naive Bayes: fit on the whole symbolic dataset vs every fit_with chain over all splits into <=3 contiguous batches (n<=5, concrete label patterns incl. class-incomplete batches): class set, counts, priors, per-class means, variances / feature counts and log-probabilities equal the textbook estimates (cross-multiplied obligations, z3), and predict maximises the joint log-likelihood recomputed from the model's own statistics. Mini-batch k-means fit_with: running-mean recurrence with cumulative counts and the converged / not-converged verdict. FTRL: z and n recurrences of update and weights == 0 iff |z| <= l1 on symbolic state. The Gaussian NB smoothing-epsilon defect (incremental sigma differs from batch sigma when var_smoothing > 0) is reported as KNOWN-FINDING by dedicated jobs.",
+    text="Gaussian and multinomial naive Bayes: fit on the whole symbolic dataset vs every fit_with chain over all splits into <=3 contiguous batches (n<=5, concrete label patterns incl. class-incomplete batches): class set, counts, priors, per-class means, variances / feature counts and log-probabilities equal the textbook estimates (cross-multiplied obligations, z3), and predict maximises the joint log-likelihood recomputed from the model's own statistics. Mini-batch k-means fit_with: running-mean recurrence with cumulative counts and the converged / not-converged verdict. FTRL: z and n recurrences of update and weights == 0 iff |z| <= l1 on symbolic state.",
     technique="symbolic-scalar concolic execution + SMT (z3); native f64 replay",
     design_ref="DESIGN.md §4 C15"),
  "C06": dict(
@@ -76,6 +76,10 @@ CLAIMS = {
     text="SMO solver at state level through the guarded re-export of the Permutable kernel types (swap keeps every per-position attribute with its sample incl. box bounds; write-back through solver-chosen involutive and non-involutive permutations, classification and regression folding; rho for the nu formulation finite and between the class-wise KKT bounds; do_shrinking never panics; epsilon-SVR assembled as fit_epsilon does) and end to end through the public Fit impls for C-SVC (unequal class weights, shrinking on and off), nu-SVC and one-class with linear and quadratic kernels on n<=4 points: box bounds per class weight, equality constraint, KKT within eps, decision value == sum alpha_i K(x_i,q) - rho from the published coefficients, label == sign, nsupport, finite rho. Exhaustive for 24 (point set, label pattern) combinations with concrete dyadic points and symbolic class weights; symbolic points are bug hunting under per-query timeouts. Gaussian kernel, nu-regression, Platt calibration are outside.",
     technique="symbolic-scalar concolic execution + SMT (z3); native f64 replay",
     design_ref="DESIGN.md §4 C13"),
+ "C08": dict(
+    text="Two layers. Integration: the real Dbscan / Optics transforms with the three real neighbour indices (leaf sizes 1, 2 and default) on symbolic integer points (1-D n<=4 quick / 5 thorough, 2-D n<=3) with a symbolic tolerance, L1 / Linf (L2 in 1-D through rdistance), min_points 2..n+1, tolerance != / == / unconstrained w.r.t. the pairwise distances; the oracle is the definition recomputed from the coordinate terms: labelled iff core or within tolerance of a core point, co-clustering of core points == density connectivity, border points carry a reaching core point's label, labels 0..c-1; OPTICS: each sample once, core distance == distance to the min_points-th neighbour (cardinality encoding, solver obligation), reachability undefined or max(core(o), d(o,p)) for a core o within tolerance listed no later, core distances independent of the index kind. Contract: the same obligations with a mock index answering from a symbolic distance table in row / reversed / sorted / solver-chosen order (n<=6 DBSCAN, n<=4 OPTICS), so visiting-order effects are explored as paths. Zero-feature inputs are a recorded finding.",
+    technique="symbolic-scalar concolic execution + SMT (z3); solver-chosen answer orders; native f64 replay",
+    design_ref="DESIGN.md §4 C08"),
 }
 NA = {
  "C10": "not applicable to solver-based checking within reach: a Gaussian-mixture fit is k-means initialisation + Cholesky factorisations + an EM loop with exp/ln in every step and a data-dependent iteration count; with exp/ln uninterpreted the fitted weights/covariances are unconstrained terms, so positivity, normalisation and the precision-covariance inverse relation cannot be decided, and z3's nonlinear real arithmetic does not get through one EM step (DESIGN.md C10). Only GmmParams::check_ref is covered, under C04.",
